@@ -769,7 +769,7 @@ def c14_mixed_history(rng, with_net=True):
             if rng.random() < 0.3: e += f"+{rng.randint(0, 3)}"
             if r < 0.08: e = "I" + ("" if e.startswith("-") else e)
             entries.append(e)
-        h.append(f"run {rng.choice(['all', 'all', 'half', 'wb', '1', 'err'])} " + " ".join(entries))
+        h.append(f"run {rng.choice(['all', 'all', 'all', 'half', 'half', 'wb', 'wb', '1', '1', 'err', 'err', '0'])} " + " ".join(entries))
     return h
 
 
@@ -891,6 +891,89 @@ def c14_closing_wave_histories(rng):
     return hs
 
 
+
+# ---- branch-hit counters of the model's run() (driver op `branches`; the same histories agreed line by line with the
+# real Server in the differential run, so a branch the model takes is a branch the implementation's log is consistent with)
+C14_BRANCHES = [
+    "t.user", "t.default", "t.done", "c.empty", "c.onClosed", "c.delete",
+    "p.pending", "p.query.events", "p.query.timeout", "p.query.eventfd", "p.query.eventfd+events",
+    "d.none.return", "d.none.continue", "d.zeroflags.return", "d.zeroflags.continue", "d.read",
+    "d.write.wouldblock", "d.write.error.onClosed", "d.write.sent0.onClosed", "d.write.partial", "d.write.drained.onWrite",
+    "d.write.empty.onWrite", "d.accept.failed", "d.accept.kept", "d.accept.null", "d.accept.removed",
+    "d.connect.error.onAbolished", "d.connect.kept", "d.connect.null", "d.connect.removed",
+    "x.write_event_for_suspended_client", "x.timer_created_in_onClosed", "x.timer_created_in_onActivated",
+    "x.remove_self_in_onRead", "x.remove_self_in_onWrite", "x.remove_self_in_onClosed",
+    "x.interrupt_with_events_of_the_same_epoll_wait", "x.interrupt_pending_while_batch_drains",
+    "x.two_timers_due_same_tick", "x.timer_removes_itself", "x.timer_removes_another_due_timer",
+]
+# branches of the model that no history can reach (kept in the model because the C++ has them)
+C14_UNREACHABLE = {
+    "c.delete": "Server.cpp 277: a client without callback / with _removed is deleted by the hand-over code before the closing loop sees it (repaired code)",
+    "d.write.empty.onWrite": "Server.cpp 387-392 entered with an empty send buffer: excluded by theorem onWrite_needs_backlog / client_interest (write interest iff backlog)",
+    "d.accept.failed": "Server.cpp 375: accept() failing after the listener was reported readable (peer aborted in between) is not reproducible on loop-back; HOLE in the tie",
+    "t.fault": "", "c.fault": "", "d.write.fault": "", "d.accept.fault": "", "d.connect.fault": "",
+}
+
+
+def c14_branch_hits(histories):
+    """run the model driver alone over the histories and sum its branch counters"""
+    import concurrent.futures
+    drv = C.driver_path(DRIVER)
+    n = max(1, (len(histories) + C.NCPU - 1) // C.NCPU)
+    parts = [histories[i:i + n] for i in range(0, len(histories), n)]
+
+    def one(part):
+        lines = []
+        for h in part:
+            lines.append("reset")
+            lines += h
+        lines.append("branches")
+        out, rc, _ = C.run_lines(drv, lines, timeout=300)
+        return out[-1] if out else ""
+    tot = {}
+    with concurrent.futures.ThreadPoolExecutor(max_workers=C.NCPU) as ex:
+        for line in ex.map(one, parts):
+            for kv in line.split():
+                if "=" in kv:
+                    k, v = kv.rsplit("=", 1)
+                    tot[k] = tot.get(k, 0) + int(v)
+    return tot
+
+
+
+def c14_branch_tour():
+    """one short deterministic history per rare branch / situation of run() (so that the branch-hit table does not depend on the seed)"""
+    two = ["mkpair 1", "mkpair 2", "psend 1 3", "psend 2 3"]
+    return [
+        ["mkpair 1", "act wr:1:40:2", "act sus:1", "run all 1 -"],                               # write event for a suspended client
+        ["mkpair 1", "act wr:1:40:2", "act sus:1", "run 1 1 1 -", "act res:1", "run all 1 -"],    # partial sends while suspended
+        ["mkpair 1", "script 1 0 rd:1", "script 1 1 mk:33:2", "pclose 1", "run all 1 - -"],       # timer created inside onClosed
+        ["mkpair 1", "psend 1 3", "script 1 0 rmc:1", "run all 1 -"],                             # remove(client) inside its own onRead
+        ["mkpair 1", "act wr:1:40:2", "script 1 0 rmc:1", "run all 1 -"],                         # … inside its own onWrite
+        ["mkpair 1", "script 1 0 rd:1", "script 1 1 rmc:1", "pclose 1", "run all 1 -"],           # … inside onClosed (closing loop)
+        ["mkpair 1", "act wr:1:40:2", "script 1 0 rmc:1", "run err 1 -"],                         # … inside onClosed (failed write-ready send)
+        ["mkpair 1", "act wr:1:40:2", "run 0 1 -"],                                               # send() == 0 in the write-ready branch
+        ["mkpair 1", "act wr:1:40:2", "run wb 1 1 -", "run all 1 -"],                             # would-block in the write-ready branch
+        two + ["run all I1,2", "run all - -"],                                                    # interrupt + events in one epoll_wait; batch survives the return
+        two + ["script 2 0 intr", "run all 2,1 -"],                                               # interrupt() from a callback while the batch drains
+        two + ["script 1 0 rmc:2", "run all 1,2 -"],                                              # pending event of a removed client
+        ["act mk:1:2", "act mk:2:2", "run all - - -"],                                            # two timers due in the same tick
+        ["act mk:1:2", "act mk:2:2", "script 1 0 rmt:1", "run all - - -"],                        # timer removing itself
+        ["act mk:1:2", "act mk:2:2", "script 1 0 rmt:2", "run all - - -"],                        # timer removing another due timer
+        ["act mk:1:2", "act mk:2:2", "script 2 0 rmt:1,mk:3:1", "run all - - - -"],
+        ["mkpair 1", "act sus:1", "pclose 1", "run all 1 -"],                                     # hang-up of a client registered for nothing: zero flags
+        ["mkpair 1", "act sus:1", "pclose 1", "run all I1"],
+        ["mklisten 1", "dial 1", "script 1 0 null", "run all 1 -"],
+        ["mklisten 1", "dial 1", "script 1 0 rmnew", "run all 1 -"],
+        ["mklisten 1", "dial 1", "dial 1", "script 1 0 rml:1", "run all 1 1 -"],                  # listener removing itself with a connection still queued
+        ["mkconn 1", "script 1 0 null", "run all 1 -"],
+        ["mkconn 1", "script 1 0 rmnew", "run all 1 -"],
+        ["mkconn 1", "script 1 0 rme:1", "run all 1 -"],                                          # establisher removing itself inside onConnected
+        ["mkconn 2", "cfail 2", "script 2 0 rme:2", "run all 2 -"],                               # … inside onAbolished
+        ["mkconn 2", "cfail 2", "run all 2 - 2 -"],                                               # an establisher gets exactly one outcome
+    ]
+
+
 class C14Stats:
     def __init__(self):
         self.lock = threading.Lock()
@@ -947,14 +1030,15 @@ def check_c14(ctx):
         ex = c14_equal_due_exhaustive()
         ex2 = c14_pending_exhaustive()
         ex3 = c14_closing_wave_histories(random.Random(12345))
+        tour = c14_branch_tour()
         mt = c14_threaded_interrupt_histories(rng, 150 if quick else 1500)
         nt, nm = (6000, 9000) if quick else (60000, 90000)
         if not proof_ok:
             nt, nm = nt * 3, nm * 3
         tim = [c14_timer_history(rng, equal_due=(k % 2 == 0)) for k in range(nt)]
         mix = [c14_mixed_history(rng, with_net=(k % 3 != 0)) for k in range(nm)]
-        hs = hs + ex + ex2 + ex3 + mt + tim + mix
-        ctx.cov["rule"] = (f"corpus ({ncorpus}) + exhaustive equal-due scope: 1..8 timers created in one virtual millisecond with equal interval, "
+        hs = hs + tour + ex + ex2 + ex3 + mt + tim + mix
+        ctx.cov["rule"] = (f"corpus ({ncorpus}) + branch tour ({len(tour)} deterministic histories, one per rare branch / situation of run()) + exhaustive equal-due scope: 1..8 timers created in one virtual millisecond with equal interval, "
                            f"remove(timer r) for every r before run / between runs / from the callback of every timer q ({len(ex)} histories) + "
                            f"closing-wave family: 9/12 live clients all failing a read/write in one loop iteration in 5 orders x 10-11 immediate-remove patterns, remove inside onClosed, re-creation in freed slots and a second wave ({len(ex3)} histories; monitor: exactly one onClosed per failed-and-not-removed client, none for removed ones) + "
                            f"{len(mt)} programs with interrupt() from a real second thread while run() blocks in the real epoll_wait with idle clients, listeners and timers registered + "
@@ -975,6 +1059,11 @@ def check_c14(ctx):
         st = C14Stats()
         diffs = C.differential(ctx, harness, C.driver_path(DRIVER), hs, c14_reference, nontrivial=st.nontrivial, timeout=600)
         ctx.cov["callbacks_seen"] = st.ev
+        bh = c14_branch_hits(hs)
+        ctx.cov["branch_hits"] = {k: bh.get(k, 0) for k in C14_BRANCHES + sorted(set(bh) - set(C14_BRANCHES))}
+        never = [k for k in C14_BRANCHES if bh.get(k, 0) == 0]
+        ctx.cov["branches_never_hit"] = {k: C14_UNREACHABLE.get(k, "NOT REACHED BY THE GENERATORS") for k in never}
+        ctx.log(f"branch hits of run(): {len(C14_BRANCHES) - len(never)}/{len(C14_BRANCHES)}; never hit: {never}")
         ctx.cov["env_fail_lines"] = st.envfail
         ctx.cov["runs_interrupted_by_a_real_second_thread"] = getattr(st, "mt", 0)
         ctx.cov["open_statements"] = [
